@@ -507,7 +507,8 @@ class Server(utils.EventEmitter):
                 logger.warning(color('!!! GATT Indicate timeout', 'red'))
                 raise TimeoutError(f'GATT timeout for {indication.name}') from error
             finally:
-                self.pending_confirmations[bearer] = None
+                # (the default is None; don't re-create an entry for a closed bearer)
+                self.pending_confirmations.pop(bearer, None)
 
     async def _notify_or_indicate_subscribers(
         self,
